@@ -176,7 +176,17 @@ struct World {
   }
 
   ~World() {
-    // nothing to release explicitly: the arena owns all memory; Strings free themselves. The block chain was checked by finish().
+    // Teardown must not crash or leak even when a check threw in the middle of a case while one of the known arena defects
+    // is pending (otherwise shrinking would die in ~Arena): silently repair what finish() would have reported.
+    Arena& a = arena();
+#ifdef C18_ASAN
+    bool seen_current = false;
+    for (Arena::ManagedBlock* b = a._first_block; b; b = b->next) {
+      if (b == a._current_block) seen_current = true;
+      if (b->next && __asan_address_is_poisoned(b->next)) b->next = seen_current ? nullptr : a._current_block;
+    }
+#endif
+    if (a._dynamic_blocks && a._first_block->size == 0 && !a.has_static_block()) (void)a.alloc_oneshot(8);
   }
 
   // =============================================================================================
